@@ -34,3 +34,7 @@ func OnlyFunc() int { return 2 }
 // OnlyMethod is visible to package d only.
 // @packageonly
 func (t *T) OnlyMethod() {}
+
+// Install is for tests only; it takes what a test helper made.
+// @testonly
+func (t *T) Install(n int) {}
